@@ -300,6 +300,22 @@ fn spaces(thorough: bool) -> Vec<(String, u64, String, Box<dyn Fn(u64, &mut Acc)
             case_parse(kind, &text, pat, acc);
         }
     })));
+    // (h) very long symbol runs ("any length"): each of the 19 symbols repeated up to 70 000 times
+    let runs = [64usize, 255, 256, 1_000, 65_535, 65_536, 70_000];
+    let vals_h = values();
+    v.push(("(h) long runs: 19 symbols x 7 run lengths x {format x 3 types x 2 values, parse of the formatted text x 3 types}".into(), 19 * 7 * 3, "".into(), Box::new(move |i, acc| {
+        let kind = (i % 3) as u8;
+        let len = runs[(i / 3 % 7) as usize];
+        let c = "GyqMwdDeabhHKkmsnXx".chars().nth((i / 21) as usize).unwrap();
+        let pat = c.to_string().repeat(len);
+        for (d, n, o) in [vals_h[0], vals_h[2]] {
+            case_format(kind, d, n, o, &pat, acc);
+            if let Some(Out::Val(text)) = real_format(kind, d, n, o, &pat) {
+                case_parse(kind, &text, &pat, acc);
+            }
+        }
+        case_parse(kind, "1", &pat, acc);
+    })));
     // (e) cron
     let nc = count_strings(11, if thorough { 5 } else { 4 });
     let clen = if thorough { 5 } else { 4 };
